@@ -35,8 +35,10 @@ ASSUMPTIONS = ['float64 records with non-zero peak (integer records are stored a
                'equality: rtol 1e-10 + atol 1e-12*scale (both sides run the same code)']
 EXHAUSTIVE = {'quick': 'every (class, W, m) with W over all reachable observational cache states; every (class, W, m1, m2) for W in {empty, all-warm}',
               'thorough': 'every (class, W, m) and every (class, W, m1, m2) for all reachable W'}
-MIN_EVALS = {'quick': {'inv.after-op(all observables==fresh twin)': 8000, 'read.idempotent': 3000, 'read.non-interfering': 3000},
-             'thorough': {'inv.after-op(all observables==fresh twin)': 250000, 'read.idempotent': 80000, 'read.non-interfering': 80000}}
+MIN_EVALS = {'quick': {'inv.after-op(all observables==fresh twin)': 8000, 'read.idempotent': 3000, 'read.non-interfering': 3000,
+                       'inv.derived-object(all observables==fresh twin)': 1500},
+             'thorough': {'inv.after-op(all observables==fresh twin)': 250000, 'read.idempotent': 80000, 'read.non-interfering': 80000,
+                          'inv.derived-object(all observables==fresh twin)': 12000}}
 
 OBS_SIG = ['npts', 'time', 'values', 'fa_spectrum', 'fa_freqs', 'fa_frequencies', 'smooth_fa_spectrum', 'smooth_fa_freqs',
            'fa_spectrum_abs']
@@ -183,7 +185,8 @@ CALLS_ACC = ['im.calc_arias_intensity', 'im.calc_cav', 'im.calc_isv', 'im.calc_i
              'sdof.calc_resp_uke_spectrum', 'sdof.calc_input_energy_spectrum', 'surface.calc_surface_energy',
              'surface.calc_cum_abs_surface_energy', 'stockwell.get_max_stockwell_freq', 'fns.interp_to_approx_dt',
              'fns.resample_to_approx_dt', 'multiple.combine_at_angle', 'multiple.compute_rotated', 'method.generate_cumulative_stats',
-             'method.get_section_average']
+             'method.get_section_average', 'fns.interp_to_approx_dt(same dt)', 'multiple.combine_at_angle(warm other, 0 deg)',
+             'multiple.Cluster(member)']
 
 
 def call_analysis(eqsig, obj, fn):
@@ -226,6 +229,15 @@ def call_analysis(eqsig, obj, fn):
         return eqsig.resample_to_approx_dt(obj, obj.dt / 2.0)
     if fn == 'multiple.combine_at_angle':
         return eqsig.combine_at_angle(obj, obj, 30.0)
+    if fn == 'fns.interp_to_approx_dt(same dt)':
+        return eqsig.interp_to_approx_dt(obj, obj.dt, even=bool(obj.npts % 2 == 0))
+    if fn == 'multiple.combine_at_angle(warm other, 0 deg)':
+        other = eqsig.AccSignal(np.asarray(obj.values, dtype=float)[::-1] * 0.5, obj.dt)
+        observe(other, OBS_ACC)          # the other component has every cache filled
+        return eqsig.combine_at_angle(obj, other, 0.0)
+    if fn == 'multiple.Cluster(member)':
+        c = eqsig.Cluster([np.asarray(obj.values, dtype=float), np.asarray(obj.values, dtype=float)[::-1]], obj.dt, stypes='acc')
+        return c.signal_by_index(0)
     if fn == 'multiple.compute_rotated':
         return eqsig.compute_rotated(obj, obj, parameter='pga', points=3)
     if fn == 'method.generate_cumulative_stats':
@@ -328,6 +340,25 @@ class Hook(object):
                        % (cls_name, ' ; '.join(describe(o) for o in history[-4:]), bad))
         return not bad
 
+    def inv_derived(self, result, cls_name, base, history):
+        """signal objects RETURNED by a library function applied to the (possibly warm) object: every observable equals that of
+        a freshly built twin of the returned object's own values/dt/settings - a derived object must not inherit a memo"""
+        objs = [r for r in (list(result) if isinstance(result, (tuple, list)) else [result])
+                if hasattr(r, 'values') and hasattr(r, 'npts') and hasattr(r, 'reset_values')]
+        for d in objs:
+            names = obs_names(d)
+            of = observe(fresh(self.eqsig, d), names)
+            o1 = observe(copy.deepcopy(d), names)
+            o3 = {}
+            for name in FIRST_READS:
+                if name in of:
+                    o3[name] = observe(copy.deepcopy(d), [name])[name]
+            bad = sorted(set(diff_obs(o1, of)) | set(k for k in o3 if not same(o3[k], of[k])))
+            self.ctx.check(not bad, 'inv.derived-object(all observables==fresh twin)',
+                           lambda: dict(self.witness(cls_name, base, history), stale=bad),
+                           'object returned by %s: observables %s differ from a fresh object with the same values/dt/settings'
+                           % (describe(history[-1]), bad))
+
     def read_checks(self, obj, cls_name, base, history, name):
         """idempotence and non-interference of one read on the live object"""
         names = obs_names(obj)
@@ -379,7 +410,9 @@ def run_history(hook, eqsig, cls_name, base, history, check_every=True, rng=None
             if name.startswith('read:') and reads_checked:
                 hook.read_checks(obj, cls_name, base, done, name[5:])
             else:
-                apply_op(eqsig, obj, op)
+                res = apply_op(eqsig, obj, op)
+                if name.startswith('call:') and res is not None:
+                    hook.inv_derived(res, cls_name, base, done + [op])
         except Exception as e:
             # An operation that raises (e.g. a Butterworth filter on a record that earlier resets made shorter than scipy's
             # pad length) is outside what the statement promises: counted, not judged. The invariant is still evaluated
